@@ -75,10 +75,10 @@ type c20Inv struct {
 	bodyRead bool
 	body     []byte
 
-	finished  []int
-	started   int
-	badPanic  string
-	ownAttrs  string
+	finished []int
+	started  int
+	badPanic string
+	ownAttrs string
 }
 
 func (inv *c20Inv) failf(key, format string, a ...any) {
@@ -608,6 +608,8 @@ func evalC20(c string) Result {
 		return evalC20Wrap(f)
 	case "C20.mw":
 		return evalC20MW(f)
+	case "C20.server":
+		return evalC20Server(f)
 	}
 	panic("bad op " + f[0])
 }
@@ -704,6 +706,10 @@ func genC20(rng *rand.Rand, tier string) (cases []string) {
 			reqs = append(reqs, c20GenReq(rng, j, &dup))
 		}
 		cases = append(cases, fmt.Sprintf("C20.mw %d %s %d %s", pick(rng, 1, 1, 2, 2, 4, 8), pick(rng, "w0", "w0", "w1"), rng.IntN(1<<30), strings.Join(reqs, ";")))
+	}
+	// real-server requests (chunked bodies with trailers), sequential and concurrent
+	for i := 0; i < max(nwrap/100, 4); i++ {
+		cases = append(cases, fmt.Sprintf("C20.server %d %d", pick(rng, 1, 3, 8, 20), pick(rng, 1, 1, 4, 8)))
 	}
 	for i := 0; i < nwrap; i++ {
 		n := pick(rng, 0, 1, 2, 3, 4, 5, rng.IntN(12))
